@@ -19,7 +19,9 @@ import (
 
 type Step struct {
 	Del    bool   `json:"del"`
-	Domain string `json:"domain"` // as passed to Add / Delete (any letter case in the literal parts)
+	Domain string `json:"domain"` // as passed to Add / Delete (any letter case in the literal parts and in parameter names)
+	// Reg: instead of an Add / Delete, RegisterInterceptor(digits-only, "num") - from here on "num" is an interceptor
+	Reg bool `json:"reg,omitempty"`
 }
 
 type Case struct {
@@ -38,16 +40,21 @@ var (
 
 func randCase(t *rapid.T, s string) string {
 	b := []byte(s)
-	depth := 0
+	depth, inRule := 0, false
 	for i, c := range b {
 		if c == '{' {
 			depth++
+			inRule = false
 		}
 		if c == '}' {
 			depth--
 			continue
 		}
-		if depth == 0 && c >= 'a' && c <= 'z' && rapid.IntRange(0, 2).Draw(t, "uc") == 0 {
+		if depth > 0 && c == ':' {
+			inRule = true
+		}
+		// literal text and parameter names; a rule is left alone (\D is not \d)
+		if !inRule && c >= 'a' && c <= 'z' && rapid.IntRange(0, 2).Draw(t, "uc") == 0 {
 			b[i] = c - 32
 		}
 	}
@@ -83,6 +90,10 @@ func gen(t *rapid.T) Case {
 				pool = append(pool, labels[(off+j)%len(labels)]+"."+suf)
 			}
 			pool = append(pool, rapid.SampledFrom(tokens).Draw(t, "btok")+"."+suf)
+		} else if rapid.IntRange(0, 5).Draw(t, "lateRule") == 0 {
+			// a wildcard whose rule name is registered as an interceptor somewhere in the history; it sits behind a
+			// literal label of its own, so that no two such domains share the parameter's tree node
+			pool = append(pool, rapid.SampledFrom(labels).Draw(t, "lateLabel")+"."+rapid.SampledFrom([]string{"{n:num}", "{k:num}"}).Draw(t, "lateTok"))
 		} else if rapid.IntRange(0, 7).Draw(t, "v6") == 0 {
 			pool = append(pool, rapid.SampledFrom(ipv6).Draw(t, "ipv6"))
 		} else {
@@ -90,6 +101,7 @@ func gen(t *rapid.T) Case {
 		}
 	}
 	live := map[string]bool{}
+	regDone := false
 	for i, m := 0, rapid.IntRange(1, rig.Up(20)).Draw(t, "nsteps"); i < m; i++ {
 		var s Step
 		var liveList []string
@@ -97,6 +109,11 @@ func gen(t *rapid.T) Case {
 			if live[d] {
 				liveList = append(liveList, d)
 			}
+		}
+		if !regDone && rapid.IntRange(0, 7).Draw(t, "isReg") == 0 {
+			regDone = true
+			c.Steps = append(c.Steps, Step{Reg: true})
+			continue
 		}
 		if len(liveList) > 0 && rapid.IntRange(0, 9).Draw(t, "isDel") < 3 {
 			d := rapid.SampledFrom(liveList).Draw(t, "delLive")
@@ -114,7 +131,11 @@ func gen(t *rapid.T) Case {
 	}
 	var parsed []*pat.Pattern
 	for _, d := range pool {
-		if p, err := pat.Parse(d, icptOf(c.Icpt)); err == nil {
+		hic := pat.Icpt{"num": "digit"}
+		for k, v := range icptOf(c.Icpt) {
+			hic[k] = v
+		}
+		if p, err := pat.Parse(d, hic); err == nil {
 			parsed = append(parsed, p)
 		}
 	}
@@ -133,7 +154,7 @@ func gen(t *rapid.T) Case {
 				if a.IsLit() {
 					sb.WriteByte(a.B)
 				} else {
-					sb.WriteString(rapid.SampledFrom([]string{"x", "7", "xy", "78", "a", "a.b", "api", "1", "", "x-y", "Z9"}).Draw(t, "hval"))
+					sb.WriteString(rapid.SampledFrom([]string{"x", "7", "xy", "78", "a", "a.b", "api", "1", "", "x-y", "Z9", "num"}).Draw(t, "hval"))
 				}
 			}
 			h = randCase(t, sb.String())
@@ -211,13 +232,16 @@ func match(hs *mux.Hosts, host string) (result, any, bool) {
 	var res result
 	v, p := rig.Try(func() { res.ok = hs.Match(r, ctx) })
 	res.params = map[string]string{}
-	ctx.Range(func(k, v string) { res.params[k] = v })
+	ctx.Range(func(k, v string) { res.params[strings.ToLower(k)] = v }) // names compared case-insensitively, like the domains
 	ctx.Destroy()
 	return res, v, p
 }
 
 func check(c Case, st *rig.Stats) error {
-	ic := icptOf(c.Icpt)
+	ic := pat.Icpt{}
+	for k, v := range icptOf(c.Icpt) {
+		ic[k] = v
+	}
 	hs := mux.NewHosts(false)
 	if c.Icpt {
 		hs.RegisterInterceptor(pat.Funcs["word"], "word")
@@ -253,7 +277,12 @@ func check(c Case, st *rig.Stats) error {
 		when := fmt.Sprintf("after step %d %+v (history %+v)", i, s, c.Steps[:i+1])
 		lower := strings.ToLower(s.Domain)
 		var delPat *pat.Pattern
-		if s.Del {
+		if s.Reg {
+			// domains added so far keep reading "num" as a regexp, those added from now on as an interceptor
+			hs.RegisterInterceptor(pat.Funcs["digit"], "num")
+			ic["num"] = "digit"
+			classes = append(classes, "interceptor-registered-mid-history")
+		} else if s.Del {
 			delPat = live[lower]
 			if v, p := rig.Try(func() { hs.Delete(s.Domain) }); p {
 				return rig.Violf("panic", "%s: Delete panicked: %v", when, v)
@@ -404,8 +433,8 @@ func check(c Case, st *rig.Stats) error {
 
 var stats = rig.NewStats("C14",
 	"rapid draws a pool of 2-12 domain patterns (literal labels, named / regexp / interceptor / ignored wildcard labels, bursts of 5-7 literal first labels plus a wildcard under one suffix), a history of 1-20 Add / Delete steps with the literal parts in random letter case, and 1-6 Host strings (a pool domain instantiated with simple or literal-alphabet values in random case, with ':80', ':', ':8x', brackets, brackets+port; special forms; arbitrary strings). After every step each live domain's witness must be accepted with its own (or an equal-or-higher-kind sibling's conforming) parameters, a deleted domain's witness must be rejected unless another live domain matches it, hosts the deleted domain does not match must resolve as before; generated hosts are normalised by the harness (lower-case, valid ':digits*' port stripped, one pair of brackets stripped) and, while the history is add-only, must be accepted iff the C02 reference resolver finds a domain, with parameters in its admissible set; after a delete only 'accepted implies some live domain conforms' is judged. Non-trivial: a live domain was deleted while others stayed; distinct by hash of the case",
-	"interceptors are registered before any domain is added (the documented requirement)",
-	"parameter tokens are lower-case (Add lower-cases the whole pattern)")
+	"the word / digit interceptors are registered before any domain is added; the rule name 'num' is registered at a drawn point of the history and only used by wildcards that sit behind a literal label of their own (the statement does not say what a token shared by a domain added before and one added after the registration means)",
+	"letter case is varied in literal text and in parameter names, not inside rules; parameter names are compared case-insensitively")
 
 func TestProp(t *testing.T) { rig.RunProp(t, stats, gen, check) }
 
